@@ -22,19 +22,22 @@ Proof. exact mime_from_string_inverse. Qed.
 Print Assumptions C13_mime_from_string_inverse.
 
 (* ---- blocking side: category assignment of Blocker::new ---- *)
-(* redirect-rule never puts the rule into a list that can block — except together with
-   `important` (carved out; see C13_redirect_rule_important_blocks_refuted). *)
+(* redirect-rule never puts the rule into a list that can block, whatever else the rule carries
+   (also with `important`: finding repaired in /repo b0d8343) *)
 Theorem C13_redirect_rule_never_blocks : forall s,
-  is_redirect s = true -> also_block_redirect s = false -> is_important s = false ->
+  is_redirect s = true -> also_block_redirect s = false ->
   blocking_category (category_of s) = false.
 Proof. exact redirect_rule_never_blocks. Qed.
 Print Assumptions C13_redirect_rule_never_blocks.
 
-Theorem C13_redirect_rule_important_blocks_refuted :
-  exists s, is_redirect s = true /\ also_block_redirect s = false /\ is_exception s = false /\
-            blocking_category (category_of s) = true.
-Proof. exact redirect_rule_important_blocks_refuted. Qed.
-Print Assumptions C13_redirect_rule_important_blocks_refuted.
+(* ... a plain redirect-rule rule is stored in `redirects` only *)
+Theorem C13_redirect_rule_goes_nowhere : forall s,
+  is_redirect s = true -> also_block_redirect s = false ->
+  is_csp s = false -> is_removeparam s = false -> is_generic_hide s = false ->
+  is_exception s = false ->
+  category_of s = CatNowhere /\ in_redirects s = true.
+Proof. exact redirect_rule_goes_nowhere. Qed.
+Print Assumptions C13_redirect_rule_goes_nowhere.
 
 (* a redirect= rule (one modifier per rule, so neither csp nor removeparam) that is not an
    exception and not generichide sits in `redirects` AND in a blocking list *)
@@ -59,6 +62,17 @@ Theorem C13_redirect_rule_option_flags : forall m tagged,
   is_important (mk_shape (mask_redirect_rule_option m) tagged) = flag m M_IS_IMPORTANT.
 Proof. exact redirect_rule_option_flags. Qed.
 Print Assumptions C13_redirect_rule_option_flags.
+
+(* ---- tags: the lists handed to the model are the UNTAGGED matching redirect rules ---- *)
+Theorem C13_untagged_delivered : forall matches, delivered matches None NO_TAGS = matches.
+Proof. exact untagged_delivered. Qed.
+Print Assumptions C13_untagged_delivered.
+
+(* carved-out class (known finding): a redirect rule with an enabled tag is never delivered *)
+Theorem C13_tagged_redirect_inert_refuted :
+  exists t enabled, In t enabled /\ delivered true (Some t) NO_TAGS = false.
+Proof. exact tagged_redirect_inert_refuted. Qed.
+Print Assumptions C13_tagged_redirect_inert_refuted.
 
 (* ---- the redirect does not read the blocking side ---- *)
 Theorem C13_redirect_independent_of_block : forall sup b1 b2 st m,
